@@ -668,27 +668,106 @@ func checkValueNotifier(r *Reporter, p *Prog) {
 		{Pkg: pkg, Type: "listener", Mutex: "mutex", ViaRecvType: "Notifier", Fields: []string{"count"}},
 	})
 	checkLockBalance(r, p, "lock/balance", []string{pkg}, nil, nil)
-	// close(channel) <-> listeners.Delete in one exclusive section
-	for _, m := range []string{"removeListener", "Notify"} {
-		fd := p.FuncDecl(pkg, "Notifier", m)
-		key := pkg + ".Notifier." + m
-		if fd == nil {
-			r.Unresolved("notifier/close-with-delete", key, "method not found")
+	// roles: the deregistration operation is the function of the package that decrements an entry's
+	// reference count (today Notifier.removeListener); the closers are that function and the
+	// exported operations that close an entry's channel (today Notify)
+	isEntry := func(t types.Type) bool { return t != nil && shortTypeName(typeName(t)) == "listener" }
+	isCountDec := func(n ast.Node) bool {
+		switch x := n.(type) {
+		case *ast.IncDecStmt:
+			return x.Tok == token.DEC && fieldSel(info, x.X, "count")
+		case *ast.AssignStmt:
+			return len(x.Lhs) == 1 && x.Tok == token.SUB_ASSIGN && fieldSel(info, x.Lhs[0], "count")
+		}
+		return false
+	}
+	closesEntryChannel := func(cl *ast.CallExpr) bool {
+		if rawKey(cl.Fun) != "close" || len(cl.Args) != 1 {
+			return false
+		}
+		se, ok := ast.Unparen(cl.Args[0]).(*ast.SelectorExpr)
+		return ok && isEntry(info.TypeOf(se.X))
+	}
+	fnKey := func(fd *ast.FuncDecl) string {
+		if rt := recvTypeName(fd); rt != "" {
+			return pkg + "." + rt + "." + fd.Name.Name
+		}
+		return pkg + "." + fd.Name.Name
+	}
+	var deregFds []*ast.FuncDecl
+	for _, fd := range p.AllFuncDecls(pkg) {
+		if fd.Body == nil {
 			continue
 		}
+		has := false
+		ast.Inspect(fd.Body, func(n ast.Node) bool {
+			has = has || (n != nil && isCountDec(n))
+			return !has
+		})
+		if has {
+			deregFds = append(deregFds, fd)
+		}
+	}
+	var deregFd *ast.FuncDecl
+	if len(deregFds) == 1 {
+		deregFd = deregFds[0]
+	}
+	// close(channel) <-> listeners.Delete in one exclusive section
+	var closers []*ast.FuncDecl
+	if deregFd != nil {
+		closers = append(closers, deregFd)
+	}
+	for _, fd := range p.AllFuncDecls(pkg) {
+		if fd.Body == nil || fd == deregFd || !fd.Name.IsExported() || fd.Recv == nil {
+			continue
+		}
+		f := newFuncCFG(p, info, fd.Body, fnKey(fd))
+		if len(f.Calls(closesEntryChannel)) > 0 {
+			closers = append(closers, fd)
+		}
+	}
+	// closing an entry's channel is the success signal of Wait: only the notifying operation may do
+	// it. The deregistration path - any function from which the count decrement is reachable - must
+	// leave the channel open: a Wait of the deregistering listener that has passed its
+	// `deregistered` check but has not parked yet would find both its channels closed and report
+	// success although Notify was never called.
+	if deregFd == nil {
+		r.Unresolved("notifier/close-means-notified", pkg+".Notifier.removeListener", "method not found")
+	} else {
+		key := fnKey(deregFd)
+		f := newFuncCFG(p, info, deregFd.Body, key)
+		if cl := f.Calls(closesEntryChannel); len(cl) > 0 {
+			r.Fail("notifier/close-means-notified", key, p.posStr(cl[0].Pos()), "the deregistration path closes the shared notification channel: a Wait racing with the deregistration of the last listener returns success without any Notify")
+		} else {
+			r.Pass("notifier/close-means-notified", key, p.posStr(deregFd.Pos()), "deregistration removes the entry and leaves its channel open; only Notify closes it")
+		}
+		closers = closers[1:]
+	}
+	if len(closers) < 1 {
+		r.Fail("notifier/close-with-delete", pkg, "-", "expected Notify to close entry channels, found no closing operation (vacuous)")
+	}
+	for _, fd := range closers {
+		key := fnKey(fd)
 		f := newFuncCFG(p, info, fd.Body, key)
 		isDelete := func(n ast.Node) bool {
 			cl, ok := n.(*ast.CallExpr)
 			return ok && strings.HasSuffix(exprKey(cl.Fun), ".listeners.Delete")
 		}
-		recvObj := info.Defs[recvIdentOf(fd)]
-		recvPath := fmt.Sprintf("%s@%d", recvObj.Name(), recvObj.Pos())
 		// on the graph with the helpers in place: the close may live in a helper shared by both
-		closes := f.Calls(func(cl *ast.CallExpr) bool { return rawKey(cl.Fun) == "close" })
+		closes := f.Calls(closesEntryChannel)
 		bad := ""
 		held := f.LocksHeld(nil)
 		for _, cl := range closes {
-			if cpt, found := f.PointOf(cl); !found || held(cpt)[recvPath+".mutex"] < ModeW {
+			cpt, found := f.PointOf(cl)
+			exclusive := false
+			if found {
+				for k, m := range held(cpt) {
+					if m == ModeW && strings.HasSuffix(k, ".mutex") {
+						exclusive = true
+					}
+				}
+			}
+			if !exclusive {
 				bad = "the listener channel is closed outside the exclusive section"
 			}
 		}
@@ -708,36 +787,45 @@ func checkValueNotifier(r *Reporter, p *Prog) {
 		}
 	}
 	// identity guard
-	if f := p.CFGOf(pkg, "Notifier", "removeListener"); f == nil {
+	if deregFd == nil {
 		r.Unresolved("ident/unregister-own-entry", pkg+".Notifier.removeListener", "method not found")
 	} else {
-		fd := p.FuncDecl(pkg, "Notifier", "removeListener")
-		var entryParams []types.Object
+		fd := deregFd
+		key := fnKey(fd)
+		f := newFuncCFG(p, info, fd.Body, key)
+		// the listener's own entry: a parameter of the entry type, or a field of that type of the
+		// receiver (a handle that records the entry it was registered with)
+		var ownNames []string
 		for _, po := range paramObjs(info, fd) {
-			if po != nil && shortTypeName(typeName(po.Type())) == "listener" {
-				entryParams = append(entryParams, po)
+			if po != nil && isEntry(po.Type()) {
+				ownNames = append(ownNames, po.Name())
+			}
+		}
+		if ro := recvObj(info, fd); ro != nil {
+			if st := structOf(ro.Type()); st != nil {
+				for i := 0; i < st.NumFields(); i++ {
+					if isEntry(st.Field(i).Type()) {
+						ownNames = append(ownNames, ro.Name()+"."+st.Field(i).Name())
+					}
+				}
 			}
 		}
 		same := f.RelEdges(func(rel Rel) bool {
 			if rel.Op != "==" {
 				return false
 			}
-			for _, ep := range entryParams {
-				if rel.L == ep.Name() || rel.R == ep.Name() {
+			for _, on := range ownNames {
+				if rel.L == on || rel.R == on {
 					return true
 				}
 			}
 			return false
 		})
-		decs := f.Find(func(n ast.Node) bool {
-			s, ok := n.(*ast.IncDecStmt)
-			return ok && fieldSel(info, s.X, "count")
-		})
-		key := pkg + ".Notifier.removeListener"
+		decs := f.Find(isCountDec)
 		switch {
 		case len(decs) == 0:
 			r.Fail("ident/unregister-own-entry", key, p.posStr(fd.Pos()), "no reference-count decrement found (vacuous)")
-		case len(entryParams) == 0:
+		case len(ownNames) == 0:
 			r.Fail("ident/unregister-own-entry", key, p.posStr(fd.Pos()), "deregistration identifies its entry only by the (reusable) value: a listener of an earlier, already notified generation decrements - and can close - the entry of a later one, whose Wait then succeeds without any Notify")
 		default:
 			ok := true
@@ -768,13 +856,40 @@ func checkValueNotifier(r *Reporter, p *Prog) {
 					continue
 				}
 				lit := cbs[0]
+				if deregFd != nil && lit.Decl == deregFd && lit.RecvX != nil {
+					// the deregistration operation itself, bound to a handle: the handle records an entry
+					n++
+					rl, _ := recvLiteral(p, info, lit.RecvX, fd.Body)
+					has := false
+					if rl != nil {
+						for _, el := range rl.Elts {
+							v := el
+							if kv, isKV := el.(*ast.KeyValueExpr); isKV {
+								v = kv.Value
+							}
+							has = has || isEntry(info.TypeOf(v))
+						}
+					}
+					if !has {
+						ok = false
+					}
+					continue
+				}
 				ast.Inspect(lit.Body, func(nd ast.Node) bool {
 					cl, isCall := nd.(*ast.CallExpr)
-					if !isCall || !strings.HasSuffix(exprKey(cl.Fun), ".removeListener") {
+					if !isCall {
+						return true
+					}
+					fn := staticCallee(info, cl)
+					if fn == nil || deregFd == nil || p.decls().byFunc[fn.Origin()] != deregFd {
 						return true
 					}
 					n++
-					if len(cl.Args) != 2 || shortTypeName(typeName(info.TypeOf(cl.Args[1]))) != "listener" {
+					has := false
+					for _, ca := range cl.Args {
+						has = has || isEntry(info.TypeOf(ca))
+					}
+					if !has {
 						ok = false
 					}
 					return true
@@ -809,7 +924,7 @@ func checkValueNotifier(r *Reporter, p *Prog) {
 		if n >= 1 && ok {
 			r.Pass("ident/unregister-own-entry", pkg+".Notifier.Listener", p.posStr(fd.Pos()), "every deregistration closure passes the entry it was registered with")
 		} else {
-			r.Fail("ident/unregister-own-entry", pkg+".Notifier.Listener", p.posStr(fd.Pos()), "each deregistration closure must hand its own entry to removeListener")
+			r.Fail("ident/unregister-own-entry", pkg+".Notifier.Listener", p.posStr(fd.Pos()), "each deregistration closure must hand its own entry to the deregistration operation")
 		}
 	}
 	// Deregister is single-shot (atomic swap) and Wait defers it
@@ -836,7 +951,17 @@ func checkValueNotifier(r *Reporter, p *Prog) {
 			if !ok {
 				return false
 			}
-			return fieldSel(info, c.Fun, "deregister")
+			// the deregistration callback: a field of function type of the handle
+			se, isSel := ast.Unparen(c.Fun).(*ast.SelectorExpr)
+			if !isSel {
+				return false
+			}
+			sel := info.Selections[se]
+			if sel == nil || sel.Kind() != types.FieldVal {
+				return false
+			}
+			_, isSig := sel.Obj().Type().Underlying().(*types.Signature)
+			return isSig
 		}
 		okOnce := len(first) > 0
 		for _, pred := range []func(ast.Node) bool{isClose, isDereg} {
